@@ -126,6 +126,7 @@ def run(ctx):
     distinct = set()
     samples = []
     corr_cmp = corr_bad = corr_skip = judge_bad = 0
+    timing_excluded, timing_retried = [], 0
     kinds = {"ctl": 0, "free": 0}
     variants = {}
     outcome_hist = {}
@@ -145,6 +146,12 @@ def run(ctx):
         if len(samples) < 6 and evals % 37 == 1:
             samples.append({"case": cid, "spec": specs.get(cid, "")[:300], "real": r, "verdict": kv})
         payload = {"case": cid, "spec": specs.get(cid, ""), "real": r, "verdict": kv}
+        if kv["judge"] == "inconclusive":
+            timing_excluded.append({"case": cid, "spec": specs.get(cid, "")[:200], "real": r})
+            corr_skip += 1
+            continue
+        if r.get("retried") == "1":
+            timing_retried += 1
         if kv["judge"] != "ok":
             judge_bad += 1
             clause = kv["judge"].split(":")[1] if ":" in kv["judge"] else kv["judge"]
@@ -174,6 +181,10 @@ def run(ctx):
     consistent = not (only_orig and only_re)
     ctx.oblige("corr:model=loader", corr_bad == 0 and consistent,
                "%d disagreements; cases explained only by orig: %d, only by recheck: %d" % (corr_bad, only_orig, only_re))
+    # no wall-clock-sensitive verdicts: cases that stalled are retried once with 4x limits in a fresh
+    # directory; if they stall again they are excluded and counted; many of them is itself a failure
+    ctx.oblige("run:few-inconclusive-cases", len(timing_excluded) <= max(3, evals // 25),
+               "%d of %d cases stalled twice: %s" % (len(timing_excluded), evals, json.dumps(timing_excluded)[:400]))
     hook = mode.get("hook") == "1"
     if not hook and mode.get("patient") != "1":
         ctx.notes.append("quick tier without the hook: the real 30 s lock timeout is not sat out (callers still running after 6 s are "
@@ -191,8 +202,12 @@ def run(ctx):
         "hook_present": hook, "variant": mode.get("variant", "?"),
         "kinds": kinds, "samples": samples,
         "outcome_histogram": dict(sorted(outcome_hist.items(), key=lambda x: -x[1])[:25]),
+        "timing": {"retried_after_stall": timing_retried, "excluded_inconclusive": len(timing_excluded),
+                   "excluded_cases": timing_excluded[:5],
+                   "rule": "a loader/step that does not complete within the wall-clock limit is retried once (fresh directory, 4x limits); "
+                           "stalled twice = excluded, no verdict"},
         "correspondence": {"compared": corr_cmp, "equal": corr_cmp - corr_bad, "skipped_state_space": corr_skip},
-        "judge": {"evaluated": evals, "passed": evals - judge_bad},
+        "judge": {"evaluated": evals - len(timing_excluded), "passed": evals - len(timing_excluded) - judge_bad},
         "impl_vs_judge_failures": judge_bad, "model_vs_impl_disagreements": corr_bad,
     })
     if evals == 0:
